@@ -261,8 +261,11 @@ class C02(Property):
         return None
 
     def signature(self, case, impl, failure):
+        t = failure.get('test') or {}
         return {'what': failure.get('what'), 'operator': failure.get('operator'),
-                'linear': case['cfg']['linear']}
+                'linear': case['cfg']['linear'], 'sub_linear': case['cfg'].get('sub_linear'),
+                # the forward product came back exactly zero while the reverse one did not
+                'fwd_product_zero': bool(t.get('lhs') == 0.0 and t.get('rhs') not in (0.0, None))}
 
     def nontrivial(self, case, impl):
         return len(impl.get('tests', [])) > 3
